@@ -25,12 +25,16 @@ LAST_FAILURE = None
 
 
 def truly_empty(c):
+    if hasattr(c, "brute"):  # TREE universe
+        return not any(c.brute(n) for n in range(5))
     if c.atom:
         return False
     return not any(R.words(c.t, n, c.q, c.prefix) for n in range(len(c.prefix), len(c.prefix) + c.t.S + 1))
 
 
 def true_min(c):
+    if hasattr(c, "brute"):
+        return min(n for n in range(6) if c.brute(n))
     if c.atom:
         return len(c.prefix)
     for n in range(len(c.prefix), len(c.prefix) + c.t.S + 2):
